@@ -122,12 +122,12 @@ func CheckPair(m *Model) (res PairResult) {
 			t := f.text()
 			texts[side][f.Name] = t
 			names[side] = append(names[side], f.Name)
-			res.Files[[]string{"original/", "overlay/"}[side]+f.Name] = t
+			res.Files[[]string{"testdata/original/", "testdata/overlay/"}[side]+f.Name] = t
 		}
 	}
 	exp := m.expect()
 	for _, ef := range exp {
-		res.Files["expected/"+ef.Name] = ef.Text
+		res.Files["testdata/expected/"+ef.Name] = ef.Text
 		if ef.Touched && ef.Survivors == 0 {
 			res.Emptied++
 		}
@@ -231,7 +231,7 @@ func checkTexts(importPath string, names [2][]string, texts [2]map[string]string
 			var b bytes.Buffer
 			printer.Fprint(&b, fset, f)
 			printed[expNames[i]] = b.String()
-			res.Files["observed/"+expNames[i]] = b.String()
+			res.Files["testdata/observed/"+expNames[i]] = b.String()
 			got := reduceFile(fset, expNames[i], f, info)
 			direct = append(direct, compareFile("", expRed[i], exp[i].ImportsChecked, got, info != nil)...)
 		}
@@ -442,7 +442,7 @@ func Run(c *core.Ctx) int {
 		for _, s := range r.Symptoms {
 			fmt.Fprintf(&what, "[%s] %s\n", s.Class, s.Detail)
 		}
-		r.Files["replay.sh"] = "# prints the merged files produced by the real augmentation functions\ncd /verif && go run -tags 'verif vp_c12' ./cmd/vp c12-augment \"$(cat $(dirname $0)/IMPORTPATH)\" $(dirname $0)/overlay $(dirname $0)/original\n"
+		r.Files["replay.sh"] = "# (files live under testdata/ so that the go tool ignores them)\n# prints the merged files produced by the real augmentation functions\ncd /verif && go run -tags 'verif vp_c12' ./cmd/vp c12-augment \"$(cat $(dirname $0)/IMPORTPATH)\" $(dirname $0)/testdata/overlay $(dirname $0)/testdata/original\n"
 		c.Violate(fmt.Sprintf("%s.%s.s%d.%d", w.workload, w.class, c.Seed, w.index), what.String(), r.Files)
 	}
 
